@@ -80,6 +80,35 @@ class FmtReal:
         self.expr = expr
 
 
+class SymStr:
+    """A string with known structure: concrete pieces and default-formatted symbolic reals."""
+
+    def __init__(self, parts):
+        out = []
+        for p in parts:
+            if isinstance(p, SymStr):
+                ps = p.parts
+            else:
+                ps = [p]
+            for q in ps:
+                if isinstance(q, str) and out and isinstance(out[-1], str):
+                    out[-1] = out[-1] + q
+                elif q != "":
+                    out.append(q)
+        self.parts = out
+
+    def __repr__(self):
+        return "SymStr(%r)" % (self.parts,)
+
+
+def str_concat(a, b):
+    if isinstance(a, str) and isinstance(b, str):
+        return a + b
+    if isinstance(a, OpaqueStr) or isinstance(b, OpaqueStr):
+        return OpaqueStr()
+    return SymStr([a, b])
+
+
 class AbsValue:
     """Base class of abstract (domain U) values; the interpreter dispatches to these hooks."""
 
@@ -144,6 +173,7 @@ class Interp:
         self.call_epoch = None  # objects with epoch < call_epoch are "old"
         self.builtins = self._make_builtins()
         self.hooks = {}  # misc engine hooks: 'call_enter'
+        self.overrides = {}  # (module, global name) -> value: per-interpreter replacement of an external (linprog, sympy)
 
     # ------------------------------------------------------------------ modules
     def module_path(self, name):
@@ -300,6 +330,8 @@ class Interp:
                     return False
                 return a == b
             return False
+        if isinstance(a, SymStr) or isinstance(b, SymStr):
+            return self._symstr_eq(a, b)
         if isinstance(a, FmtReal) or isinstance(b, FmtReal):
             return self._fmt_eq(a, b)
         if isinstance(a, Obj):
@@ -340,6 +372,20 @@ class Interp:
             return a == b
         except Exception as e:  # pragma: no cover
             raise Unsupported("native == failed: %r" % (e,))
+
+    def _symstr_eq(self, a, b):
+        if isinstance(a, OpaqueStr) or isinstance(b, OpaqueStr):
+            raise Unsupported("comparison of opaque strings")
+        if not isinstance(a, (SymStr, str, FmtReal)) or not isinstance(b, (SymStr, str, FmtReal)):
+            return False
+        pa = SymStr([a]).parts
+        pb = SymStr([b]).parts
+        if len(pa) == len(pb) and all(type(x) is type(y) for x, y in zip(pa, pb)):
+            if any(isinstance(x, str) and x != y for x, y in zip(pa, pb)):
+                # same shape, different literal text: the strings differ unless number spellings absorb it (not modelled)
+                raise Unsupported("symbolic string comparison with different literal parts")
+            return s_and(*[x.expr == y.expr for x, y in zip(pa, pb) if isinstance(x, FmtReal)])
+        raise Unsupported("symbolic string comparison of different shapes")
 
     def _fmt_eq(self, a, b):
         if isinstance(a, FmtReal) and isinstance(b, FmtReal):
@@ -464,10 +510,8 @@ class Interp:
         if t is ast.Add:
             if isinstance(a, PList) and isinstance(b, PList):
                 return self.new_list(a.items + b.items)
-            if isinstance(a, (str, OpaqueStr, FmtReal)) and isinstance(b, (str, OpaqueStr, FmtReal)):
-                if isinstance(a, str) and isinstance(b, str):
-                    return a + b
-                return OpaqueStr()
+            if isinstance(a, (str, OpaqueStr, FmtReal, SymStr)) and isinstance(b, (str, OpaqueStr, FmtReal, SymStr)):
+                return str_concat(a, b)
             if isinstance(a, tuple) and isinstance(b, tuple):
                 return a + b
         if t is ast.Mod and isinstance(a, (str, OpaqueStr)):
@@ -482,7 +526,7 @@ class Interp:
                 return a * b
             if isinstance(a, PList) and isinstance(b, int):
                 return self.new_list(a.items * b)
-        if a is None or b is None or isinstance(a, (str, OpaqueStr)) or isinstance(b, (str, OpaqueStr)):
+        if a is None or b is None or isinstance(a, (str, OpaqueStr, SymStr, FmtReal)) or isinstance(b, (str, OpaqueStr, SymStr, FmtReal)):
             self.raise_native(TypeError, node, "unsupported operand types")
         if isinstance(a, (PList, PDict, PSet, tuple)) or isinstance(b, (PList, PDict, PSet, tuple)):
             self.raise_native(TypeError, node, "unsupported operand types")
@@ -1268,8 +1312,10 @@ class Interp:
 
     def lookup_name(self, name, env, mod, node=None):
         v, ok = env.lookup(name)
-        if ok:
+        if ok and not (env.vars is mod.ns and (mod.name, name) in self.overrides):
             return v
+        if (mod.name, name) in self.overrides:
+            return self.overrides[(mod.name, name)]
         if name in mod.ns:
             self.globals_read.add((mod.name, name))
             return mod.ns[name]
@@ -1391,20 +1437,22 @@ class Interp:
             if v.format_spec is not None:
                 spec = self.eval_fstring(v.format_spec, env, mod)
             s = self.to_str(val, conv=v.conversion, spec=spec)
-            if isinstance(s, str):
+            if isinstance(s, (str, FmtReal, SymStr)):
                 parts.append(s)
-            elif isinstance(s, FmtReal) and len(e.values) == 1:
-                return s
             else:
                 opaque = True
         if opaque:
             return OpaqueStr()
-        return "".join(parts)
+        if all(isinstance(p, str) for p in parts):
+            return "".join(parts)
+        if len(parts) == 1:
+            return parts[0]
+        return SymStr(parts)
 
     def to_str(self, v, conv=-1, spec=None):
         if isinstance(v, AbsValue):
             return OpaqueStr()
-        if isinstance(v, (OpaqueStr, FmtReal)):
+        if isinstance(v, (OpaqueStr, FmtReal, SymStr)):
             return v
         if is_z3(v):
             if spec in (None, "") and is_sym_num(v):
@@ -1780,7 +1828,9 @@ class Interp:
         if isinstance(v, (str, int, float, bool)) or v is None:
             return ("hash", v)
         if isinstance(v, FmtReal):
-            return ("hashfmt", v.expr)
+            return ("hash", SymStr([v]))
+        if isinstance(v, SymStr):
+            return ("hash", v)
         if isinstance(v, OpaqueStr):
             raise Unsupported("hash of opaque string")
         if is_z3(v):
@@ -1803,7 +1853,7 @@ class Interp:
             if isinstance(v, AbsValue):
                 return v.abs_isinstance(self, t)
             if t == "str":
-                return isinstance(v, (str, OpaqueStr, FmtReal))
+                return isinstance(v, (str, OpaqueStr, FmtReal, SymStr))
             if t == "float":
                 return (isinstance(v, float)) or (is_sym_num(v) and not v.is_int())
             if t == "int":
@@ -2062,6 +2112,13 @@ def _str_method(I, s, name, args, k):
         parts = I.iter_values(args[0])
         if all(isinstance(p, str) for p in parts):
             return s.join(parts)
+        if all(isinstance(p, (str, FmtReal, SymStr)) for p in parts):
+            out = []
+            for i, p in enumerate(parts):
+                if i:
+                    out.append(s)
+                out.append(p)
+            return SymStr(out)
         return OpaqueStr()
     if name in ("startswith", "endswith", "strip", "lower", "upper", "split", "replace", "lstrip", "rstrip"):
         if all(isinstance(x, (str, int)) for x in args):
